@@ -1075,6 +1075,13 @@ theorem nest_append (h : List Lock) (a b : List LEv) :
         split
         · exact ih _
         · simp
+    | send =>
+      simp only [List.cons_append, nest]
+      split
+      · exact ih _
+      · simp
+
+theorem closed_send : Closed [] [.send] := rfl
 
 theorem closed_nil (h : List Lock) : Closed h [] := rfl
 
@@ -1216,9 +1223,14 @@ theorem c07_all_locks_released_and_ordered (s : Srv) (e : Env) : nest [] (lockTr
         · have t := closed_ts [] (by decide)
           refine closed_append (closed_append (closed_append (closed_append t (closed_pm [] (by decide))) t) t) ?_
           split
-          · exact t
+          · exact closed_append t closed_send
           · exact closed_nil _
-  | reqTree t v => exact closed_ts _ (by decide)
+  | reqTree t v =>
+    simp only [lockTrace]
+    refine closed_append (closed_ts _ (by decide)) ?_
+    split
+    · exact closed_send
+    · exact closed_nil _
   | respTree tm ro => exact closed_sendTree s tm ro
   | treeMarshal tm =>
     simp only [lockTrace]
@@ -1230,8 +1242,8 @@ theorem c07_all_locks_released_and_ordered (s : Srv) (e : Env) : nest [] (lockTr
         · exact closed_within (by decide) (by decide) (closed_instLoop _)
         · split
           · exact closed_sendTree _ _ _
-          · exact closed_within (by decide) (by decide) (closed_nil _)
-  | reqRoster r => exact closed_ts _ (by decide)
+          · exact closed_append closed_send (closed_within (by decide) (by decide) (closed_nil _))
+  | reqRoster r => exact closed_append (closed_ts _ (by decide)) closed_send
   | sendRoster ro =>
     simp only [lockTrace]
     split
@@ -1258,6 +1270,56 @@ theorem c07_old_locks_not_released :
 `Register` with an early return that forgets the store's mutex (seeded change C07r5-A) does not: the store stays
 locked and every later message blocks in `getAndRefresh` -/
 theorem c07_miss_window_locks : nest [] missTr = some [] ∧ nest [] missTrLeaky = some [.store] := by decide
+
+/-- **no lock is held across a `Send`**: `nest` accepts a `Send` only with nothing held, so
+`c07_all_locks_released_and_ordered` says it of every handler; this is the reading of one step -/
+theorem c07_send_needs_no_lock (h : List Lock) (es : List LEv) (r : List Lock)
+    (hn : nest h (.send :: es) = some r) : h = [] := by
+  simp only [nest] at hn
+  split at hn
+  · rename_i he; simpa using he
+  · cases hn
+
+/-- **a `Send` may run a whole handler before it returns** (the peer announced the server's own identity: the
+router dispatches the message in the calling routine): put any well-nested trace in the place of a `Send` of a
+well-nested trace — the result is well nested, ordered, and ends with the same locks held.  With the theorem above:
+every handler's trace stays closed however deep the self-addressed exchange goes. -/
+theorem c07_reentrant_send_closed (callee : List LEv) (hc : nest [] callee = some []) (tr : List LEv)
+    (h r : List Lock) (ht : nest h tr = some r) : nest h (spliceSend callee tr) = some r := by
+  induction tr generalizing h with
+  | nil => exact ht
+  | cons e es ih =>
+    cases e with
+    | acq l =>
+      simp only [spliceSend, nest] at ht ⊢
+      split
+      · rename_i hm; simp [hm] at ht
+      · rename_i hm
+        simp only [hm, if_false] at ht
+        split
+        · rename_i ho; simp only [ho, if_true] at ht; exact ih _ ht
+        · rename_i ho; simp [ho] at ht
+    | rel l =>
+      simp only [spliceSend, nest] at ht ⊢
+      cases h with
+      | nil => simp at ht
+      | cons x rest =>
+        simp only at ht ⊢
+        split
+        · rename_i hx; simp only [hx, if_true] at ht; exact ih _ ht
+        · rename_i hx; simp [hx] at ht
+    | send =>
+      have he := c07_send_needs_no_lock h es r ht
+      subst he
+      simp only [spliceSend]
+      rw [nest_append, hc]
+      simpa [nest] using ht
+
+/-- the seeded change C07r6-B: the roster request goes out under `pendingTreeLock` — rejected; and what the
+self-addressed exchange then does inside that `Send` (`checkPendingTreeMarshal`) takes the lock a second time -/
+theorem c07_send_under_lock_rejected :
+    nest [] (treeMarshalTrLockedSend {}) = none ∧ nest [.pendingTree] (selfRosterRoundTrip []) = none ∧
+    nest [] (spliceSend (selfRosterRoundTrip []) (lockTrace {} (.treeMarshal ⟨.R, .roX, .good⟩))) = some [] := by decide
 
 /-- the order is not vacuous: taking the instance list's lock while holding the store's mutex (the inverse of
 `cleanTreeStorage`'s nesting) is rejected, and so is taking a lock twice -/
